@@ -94,6 +94,11 @@ def new_cert(key_name, issuer_id_component, pub_key, signer, start_time, end_tim
     cert_val.meta_info = MetaInfo(content_type=ContentType.KEY, freshness_period=3600000)
     cert_val.signature_info = CertificateV2SignatureInfo()
     cert_val.signature_info.validity_period = ValidityPeriod()
+    # ValidityPeriod is expressed in UTC: convert timezone-aware datetimes
+    if start_time.tzinfo is not None:
+        start_time = start_time.astimezone(UTC)
+    if end_time.tzinfo is not None:
+        end_time = end_time.astimezone(UTC)
     cur_time = start_time
     not_before = cur_time.strftime('%Y%m%dT%H%M%S').encode()
     cert_val.signature_info.validity_period.not_before = not_before
@@ -115,7 +120,11 @@ def new_cert(key_name, issuer_id_component, pub_key, signer, start_time, end_tim
 
 def self_sign(key_name, pub_key, signer) -> tuple[FormalName, VarBinaryStr]:
     end_time = datetime.now(UTC)
-    end_time = end_time.replace(year=end_time.year + 20)
+    try:
+        end_time = end_time.replace(year=end_time.year + 20)
+    except ValueError:
+        # 29 February of a year whose 20th successor is not a leap year
+        end_time = end_time.replace(year=end_time.year + 20, day=28)
     return new_cert(key_name, SELF_COMPONENT, pub_key, signer,
                     datetime.fromisoformat('1970-01-01T00:00:00'), end_time)
 
